@@ -91,4 +91,6 @@ def panel (f : Feat) : Panel :=
     prog := prog f,
     ctrl := .uc (Uc.por WIDTH HEIGHT 1 9 false) }
 
+attribute [driver_simp] W sendResolution init updateAchromatic updateChromatic updateFrame updatePartial2 prog
+
 end EpdVerif.Drivers.Epd7in5b_v2
